@@ -538,7 +538,7 @@ def run(tier):
     findings = core.Findings(PROP)
     ev.assumptions = list(ASSUMPTIONS)
     pool = core.Pool()
-    dl = core.Deadline(150 if tier == "quick" else 1500)
+    dl = core.Deadline(400 if tier == "quick" else 2400)
     prev = True
     ncases = 0
     for name, cs in cases(tier):
